@@ -290,7 +290,8 @@ def merge_contents(cset, offset=None, callback=None):
             # by this time, all directories should've been merged.
             # thus we can check the target
             try:
-                if not fs.isdir(gen_obj(pjoin(x.location, x.target))):
+                # a relative target is relative to the directory holding the symlink
+                if not fs.isdir(gen_obj(pjoin(os.path.dirname(x.location), x.target))):
                     raise
             except OSError:
                 raise cf
